@@ -110,9 +110,9 @@ def runFxCrash (c0 : Case) : Res :=
       let content := renderRows civilDateText (textRowsOf today year (yearRem remNew))
       let oldContent := oldToday.map (fun t0 => renderRows civilDateText (textRowsOf t0 year (yearRem remOld)))
       let init : YearFiles := { live := oldContent.map (fun d => ⟨d, d.length⟩), tmp := none }
-      let toRemote := fun (rem : List (Int × List (Int × String))) (y : Int) =>
-        (assocGet rem y).map (fun ps => ps.filterMap (fun (d, t) => (parseRat? t).map (fun v => (⟨d, v⟩ : DailyRate))))
-      let envLater : Env := { cal := civil, today := later, force := false, remote := toRemote remLater }
+      let laterLists : List (Int × List DailyRate) := remLater.map (fun (y, ps) =>
+        (y, ps.filterMap (fun (d, t) => (parseRat? t).map (fun v => (⟨d, v⟩ : DailyRate)))))
+      let envLater : Env := { cal := civil, today := later, force := false, remote := fun y => assocGet laterLists y }
       let pubLater := fun (d : Int) => pubOf civil envLater.remote d
       let tags := ["nt=C14", s!"points={points.length}", s!"len={content.length}", s!"old={oldToday.isSome}",
                    s!"dates={dates.length}", s!"laterdays={later - today}"]
@@ -141,7 +141,8 @@ def runFxCrash (c0 : Case) : Res :=
                      (if v.tmp != p.tmp then [s!"crash at {p.label}: temp file impl {showFile p.tmp} model {showFile v.tmp}"] else []) ++
                      (if p.others != "-" then [s!"crash at {p.label}: unexpected files {p.others}"] else []) ++
                      (if (p.status == "killed") != (p.label != "none") then [s!"crash at {p.label}: child status {p.status}"] else [])
-          let store : Store := fun y => if y == year then v.live.map (parseFile civilDateText) else none
+          let parsed := v.live.map (parseFile civilDateText)
+          let store : Store := fun y => if y == year then parsed else none
           let lks := (dates.zip p.after).filterMap (fun (d, o, dl) =>
             let m := getEffective envLater (St.init store) d
             if lkSame true o (lkOfModel m.1) && dl == m.2.downloads then none
